@@ -281,5 +281,28 @@ PROPS['C07'] = {
               'EVPN and flowspec: second half of this check (Props/C07b), pending',
 }
 
+PROPS['C16'] = {
+    'module': 'Yabgp.Props.C16',
+    'theorems': ['Yabgp.C16_auth', 'Yabgp.C16_auth_401', 'Yabgp.C16_valid_iff', 'Yabgp.C16_gate',
+                 'Yabgp.C16_no_write_unless_established', 'Yabgp.C16_faithful', 'Yabgp.C16_default_local_pref',
+                 'Yabgp.C16_faithful_decodes', 'Yabgp.C16_reach_inv', 'Yabgp.C16_established_tracked',
+                 'Yabgp.C16_faithful_reachable', 'Yabgp.C06_roundtrip'],
+    'genagree': SESSION_GEN + ['Yabgp.C16_routes_agree', 'Yabgp.C16_chain_as_installed', 'Yabgp.C16_auth_table',
+                               'Yabgp.C16_gate_table', 'Yabgp.C16_known_table', 'Yabgp.C16_auth_config'],
+    'suites': ['rest'],
+    'cannot': SESSION_CANNOT + '; PARTIAL: a REST request is one atomic event - the worker-thread / reactor-thread '
+              'interleaving (callFromThread write after the answer, Twisted calls from the worker thread) is not exhibited; '
+              'extended-community text (C17), MP attributes (C07) and RIB bookkeeping (C19) of send/update are outside the model; '
+              'werkzeug routing and Flask-HTTPAuth header parsing are trusted (the oracle re-parses the header independently)',
+    'level_text': 'Lean 4: the URL map and the decorator chain of every view are REGENERATED from /repo on every run '
+                  '(harness/gen_routes.py -> Gen/Routes.lean: AST of api/v1.py + the live Flask url_map) and table theorems by '
+                  'decide show login_required is the outermost effective decorator of every rule under /v1/peer/ and every send '
+                  'view is state-gated; on the model of the chain and the views (Model/Rest.lean over the session model): no valid '
+                  'credentials => 401 and the state unchanged, send views outside Established => failure and nothing written, '
+                  'success => exactly one write of the requested message (+ default LOCAL_PREF on iBGP) on the tracked connection, '
+                  'for every reachable state (induction over all histories of events and requests). Tie: Flask test client on the '
+                  'real app over a real BGPPeering, every rule x method x credential variant x session state.',
+}
+
 # properties not claimed yet, with the reason that goes into MANIFEST.not_applicable
 NOT_YET = {}
